@@ -64,11 +64,11 @@ def py_key(item, labels):
     return (-int(cnt), ma, -nms, bytes.fromhex(sel) if sel != "-" else b"", lab)
 
 
-def gen_population(rng, i):
+def gen_population(rng, i, sels=None, labelsets=None):
     """2-8 ClusterCIDRs of the same families in random creation order, disjoint ranges, then nodes until exhaustion"""
     fams = rng.choice(["4", "4", "46"])
     n = rng.randint(2, 8)
-    sels = ["-", "-", "zone:In:a", "zone:In:a+b", "tier:Exists:", "zone:In:a;tier:Exists:", "zone:NotIn:b", "zone:In:b"]
+    sels = sels or ["-", "-", "zone:In:a", "zone:In:a+b", "tier:Exists:", "zone:In:a;tier:Exists:", "zone:NotIn:b", "zone:In:b"]
     ops = []
     names = ["c%d" % j for j in range(1, n + 1)]
     rng.shuffle(names)
@@ -91,7 +91,7 @@ def gen_population(rng, i):
         ops = []
         body += ops2
     ops = ops + body
-    labelsets = ["zone=a", "zone=a,tier=x", "zone=b", "tier=x", "-", "zone=c"]
+    labelsets = labelsets or ["zone=a", "zone=a,tier=x", "zone=b", "tier=x", "-", "zone=c"]
     for ls in labelsets:
         ops.append("om %s 1" % ls)
     for k in range(1, 13):
